@@ -1,6 +1,7 @@
 """Concrete-input search on the REAL code for a failed obligation (decorates the verifier's verdict)."""
 import itertools
 import json
+import re
 import subprocess
 
 from driver import natives
@@ -346,6 +347,7 @@ def search_attrs(failure):
         ops.append('derive_outcomes')
     if only == 'C10' or (not only and 'C10' in ob.split('.')[0]):
         ops.append('ts_wins')
+        ops.append('serde_equiv')
     if only == 'C09' or (not only and 'C09' in ob.split('.')[0]):
         ops.append('binding_keys')
     for op in ops:
@@ -391,13 +393,17 @@ def search_templates(failure):
     return None
 
 
-SEARCHERS = {'inflection': search_inflection, 'paths': search_paths, 'paths_esm': search_paths, 'export_chain': search_export_history, 'registry': search_export_history, 'lexical': search_lexical, 'recursion': search_export_history, 'merge': search_export_history, 'merge_imports': search_export_history, 'deps': search_export_history, 'gen_imports': search_export_history, 'containers': search_export_history, 'attrs': search_attrs, 'parsers': search_attrs, 'entry': search_attrs, 'templates': search_templates, 'field_deps': search_export_history}
+SEARCHERS = {'inflection': search_inflection, 'paths': search_paths, 'paths_esm': search_paths, 'export_chain': search_export_history, 'registry': search_export_history, 'lexical': search_lexical, 'recursion': search_export_history, 'merge': search_export_history, 'merge_imports': search_export_history, 'deps': search_export_history, 'gen_imports': search_export_history, 'containers': search_export_history, 'attrs': search_attrs, 'parsers': search_attrs, 'entry': search_attrs, 'skip_comma': search_attrs, 'templates': search_templates, 'field_deps': search_export_history}
 
 
 def search(pid, unit, failure, seed):
     f = SEARCHERS.get(unit)
     if not f:
         return None
+    if pid and not failure.get('only_for') and not re.match(r'C\d+', str(failure.get('obligation', '')).split('.')[0]):
+        # an obligation without a property in its name (proof step, closure contract, invariant, panic site): search with the
+        # oracles of the property being checked
+        failure = dict(failure, only_for=pid)
     return f(failure)
 
 
